@@ -387,6 +387,54 @@ func checkReaper(c *Ctx, prop string) {
 		}
 	}
 	c.Check(prop+"/reaper/deletes-tail-only", rule, reaper.Decl.Pos(), okLoop && ndel == 1, "the reaper's name-table delete is not confined to the loop over the partitioned tail")
+	checkReaperTablesInSync(c, prop, reaper)
+}
+
+// checkReaperTablesInSync: name table and member list stay in step. One
+// iteration of the reaper's loop over the partitioned tail is explored on its
+// own: every record dropped from the list also loses its name-table entry,
+// except the local node's own record (kept for the query API). A record that
+// stays findable by name after it left the list can be revived by the alive
+// handler - with a join event - without ever being listed by Members() again.
+func checkReaperTablesInSync(c *Ctx, prop string, reaper *core.Func) {
+	p := c.P
+	rule := "name table and member list stay in step: every record the reaper drops from the list also loses its name-table entry on every path, except the local node's own"
+	c.Rule(rule)
+	n := 0
+	inspectFn(reaper, func(nd ast.Node) bool {
+		fs, isF := nd.(*ast.ForStmt)
+		if !isF {
+			return true
+		}
+		hasDel := false
+		ast.Inspect(fs.Body, func(m ast.Node) bool {
+			if call, ok := m.(*ast.CallExpr); ok && p.Builtin(call) == "delete" && p.FieldOwner(call.Args[0]) == "Memberlist.nodeMap" {
+				hasDel = true
+			}
+			return true
+		})
+		if !hasDel {
+			return true
+		}
+		spec := &flowSpec{c: c, alias: map[types.Object]string{}, quiet: map[string]bool{}}
+		if reaper.Decl.Recv != nil && len(reaper.Decl.Recv.List[0].Names) > 0 {
+			spec.recv = p.Info.Defs[reaper.Decl.Recv.List[0].Names[0]]
+		}
+		x := c.Explore(reaper.Name+"$iteration", reaper.Decl.Type, fs.Body, spec)
+		for _, ex := range x.Exits {
+			n++
+			self := ""
+			for k, v := range ex.Cube {
+				if strings.HasPrefix(k, "eq(") && strings.Contains(k, "m.config.Name") {
+					self = v
+				}
+			}
+			ok := ex.Seen["MAPDEL:Memberlist.nodeMap"] > 0 || self == "T"
+			c.Check(prop+"/reaper/tables-in-sync", rule, ex.Pos, ok, "an iteration over the reaped tail ends at "+p.Pos(ex.Pos)+" without deleting the record's name-table entry {"+gea.CubeString(ex.Cube)+"}: the record stays findable by name after it left the member list")
+		}
+		return true
+	})
+	c.Floor("iterations of the reaper's loop explored", n, 2)
 }
 
 // swapSpec records element swaps in the partition helper.
